@@ -148,3 +148,29 @@ def ifexp_to_if(root: str) -> int:
 
 def de_morgan(root: str) -> int:
     return _rewrite(root, _DeMorgan)
+
+
+class _AddNoise(ast.NodeTransformer):
+    """Behaviour-neutral additions: an unused local and a trivially true assert at the top of every function, a docstring-like
+    expression statement at the end of every loop body."""
+
+    def __init__(self):
+        self.count = 0
+
+    def visit_FunctionDef(self, node):
+        self.generic_visit(node)
+        first = 1 if node.body and isinstance(node.body[0], ast.Expr) and isinstance(node.body[0].value, ast.Constant) else 0
+        extra = [ast.Assign(targets=[ast.Name(id="_unused_local_", ctx=ast.Store())], value=ast.Constant(value=0), lineno=node.lineno),
+                 ast.Assert(test=ast.Constant(value=True), msg=None)]
+        node.body[first:first] = extra
+        self.count += 1
+        return node
+
+    def visit_For(self, node):
+        self.generic_visit(node)
+        node.body.append(ast.Expr(value=ast.Constant(value="end of loop body")))
+        return node
+
+
+def add_noise(root: str) -> int:
+    return _rewrite(root, _AddNoise)
